@@ -1682,7 +1682,7 @@ class PyExec:
                 continue
             h.vars[name] = self.havoc_val(old, name, ordinal)
         comps = getattr(inv, "modifies_heap", None)
-        for cname in list(h.heap.c) if comps is None else comps:
+        for cname in list(h.heap.c) if comps is None else [c for c in comps if c != "alloc"]:
             h.heap.set(cname, self.fresh("%s@loop%d" % (cname, ordinal), h.heap.get(cname).sort()))
         if (comps is None or "alloc" in comps) and h.heap.alloc is not None:
             na = self.fresh("alloc@loop%d" % ordinal)
